@@ -1,3 +1,9 @@
 // Pasted into muxers/mplex/src/codec.rs (mod verif) under cfg(kani).
 #[allow(unused_imports)]
 use super::*;
+
+pub(crate) mod c25 {
+    #[allow(unused_imports)]
+    use super::super::*;
+    include!(concat!(env!("LIBP2P_VERIF"), "/units/C25/codec.rs"));
+}
